@@ -328,6 +328,23 @@ theorem C16_rangemap_partial (b oc : Bool) (rs : List Um.Proto.Range)
     exact ⟨good_reply _, hsum⟩
   · exact ⟨good_reply _, hsum⟩
 
+/-- **C16_slotmap** — the slot tables of local and peer nodes: with the `s >= SLOT_NUM` exit the fill loop takes at
+most `SLOT_NUM + 1` steps per range, whatever slot numbers either SETCLUSTER form (textual or compressed — the
+compressed form passes no parser that could validate them) delivers. -/
+theorem C16_slotmap (rs : List Um.Proto.Range) : slotMapSteps true rs ≤ rs.length * 16385 := by
+  have hS : SLOT_NUM = 16384 := by decide
+  unfold slotMapSteps
+  apply sum_map_le
+  intro r _
+  simp only [hS, if_true]
+  split
+  · omega
+  · split <;> omega
+
+/-- without that exit a compressed SETCLUSTER with the local range `0-1000000000000000` walks 10¹⁵ slots under the lock -/
+theorem C16_slotmap_full_false : slotMapSteps false [⟨0, 1000000000000000⟩] = 1000000000000001 := by
+  decide +kernel
+
 /-- **negations on the current tree**: F16d — the compressed form hands a descending list
 `[300-300, 100-199]` to `RangeMap::from` uncompacted: `199 - 300 + 1` wraps, `vec![false; n]`
 panics; F16e — `MIGRATING 1 0-999999999999999` (textual form, compaction does not help) makes
@@ -550,6 +567,9 @@ theorem C16_keys_config_cur :
     (∀ st field value count,
       (limiterDecision Um.Gen.Hostile.rateLimiterClamped (configSet st field value).1.sampleRate count).isSome = true) :=
   ⟨fun cmd => (C16_hash_tag []).2 cmd, fun st field value count => C16_rate_limiter st field value count⟩
+
+theorem C16_slotmap_cur (rs : List Um.Proto.Range) :
+    slotMapSteps Um.Gen.Hostile.slotMapBounded rs ≤ rs.length * 16385 := C16_slotmap rs
 
 /-- the regression inputs of the seven findings, on the current tree -/
 theorem C16_regressions_cur :
